@@ -74,11 +74,24 @@ theorem readType_wellformed (f : Nat) (s s' : St) (t : Ty) (h : readType f s = .
 
 /-! ### regression witnesses: inputs the pinned commit accepted with text dropped or re-interpreted -/
 
-/-- `error Foo bar` -/
-theorem rejects_error_junk : (New (str "interface a.b\nmethod F()->()\nerror Foo bar")).errOf = some .invalidErrorType := by
+/-- `error Foo bar`: what follows an error's name and is not a parameter list is left to the member loop, which
+    rejects it (since /repo 995dcfd; "invalid error type" before) -/
+theorem rejects_error_junk : (New (str "interface a.b\nmethod F()->()\nerror Foo bar")).errOf = some .unknownKeyword := by
   decide +kernel
 /-- `error Foo ?` -/
-theorem rejects_error_question : (New (str "interface a.b\nmethod F()->()\nerror Foo ?")).errOf = some .invalidErrorType := by
+theorem rejects_error_question : (New (str "interface a.b\nmethod F()->()\nerror Foo ?")).errOf = some .unknownKeyword := by
+  decide +kernel
+/-- `error Foo [string]` -/
+theorem rejects_error_bracket : (New (str "interface a.b\nmethod F()->()\nerror Foo [string]")).errOf = some .unknownKeyword := by
+  decide +kernel
+/-- `error E (a: int` at the end of the input: an unfinished parameter list, also on a later line -/
+theorem rejects_error_open_list : (New (str "interface a.b\nmethod F()->()\nerror E (a: int")).errOf = some .invalidErrorType ∧
+    (New (str "interface a.b\nmethod F()->()\nerror E # c\n(")).errOf = some .invalidErrorType := by
+  constructor <;> decide +kernel
+/-- a member behind an error without parameters is a member, not the error's type: nothing is dropped -/
+theorem member_behind_bare_error_kept :
+    (match New (str "interface a.b\nerror A method B() -> ()\n") with
+     | .ok t => t.members.map Member.name | _ => []) = [str "A", str "B"] := by
   decide +kernel
 /-- `(x: int, y)`: a mixed list is neither a struct nor an enum -/
 theorem rejects_mixed_list : (New (str "interface a.b\nmethod F(x: int, y)->()")).errOf = some .missingMethodInput := by
